@@ -82,8 +82,23 @@ def streams(tier, rng):
         raw = b''.join(v.to_bytes(4, 'little') for v in vals)
         items.append(('RARR:4:0:' + raw.hex(), 'PARR:u32:%d:1' % n, 'array', vals))
 
-    c1 = [gen.scenario(2600, 8, [(1, b'Q?', it[0])], [('I', b'Q?\n')]) for it in items]
-    st1 = {'name': 'format', 'cases': c1, 'nontrivial': lambda c, o: c if len(o) > 30 else None}
+    # long ASCII arrays (the item counters must not be narrower than the number of items of one command)
+    for n in ([255, 256, 257, 300, 512] if tier == 'quick' else [255, 256, 257, 258, 300, 511, 512, 513, 1000, 1024, 2000]):
+        vals = [rng.randrange(100) for _ in range(n)]
+        raw = b''.join(v.to_bytes(4, 'little') for v in vals)
+        items.append(('RARR:4:0:' + raw.hex(), 'PARR:u32:%d:1' % n, 'array', vals))
+
+    c1 = [gen.scenario(8192, 8, [(1, b'Q?', it[0])], [('I', b'Q?\n')]) for it in items]
+
+    def oracle1(case, out):
+        if out.startswith('X') or ' X' in out:
+            return []
+        evs = vf.events(out)
+        w = vf.outbytes(evs[:evs.index('|')] if '|' in evs else evs)
+        if not w.endswith(b'\r\n') or ' F' not in out:
+            return [('no-terminator', 'the response to a query that produced result items is not terminated and flushed: ...%r' % w[-24:])]
+        return []
+    st1 = {'name': 'format', 'cases': c1, 'oracle': oracle1, 'nontrivial': lambda c, o: c if len(o) > 30 else None}
     yield st1
     outs = st1.get('impl_out') or []
     c2, info = [], {}
@@ -95,7 +110,7 @@ def streams(tier, rng):
         if not w.endswith(b'\r\n'):
             continue
         text = w[:-2]
-        c = gen.scenario(2600, 8, [(1, b'P', it[1])], [('I', b'P ' + text + b'\n')])
+        c = gen.scenario(8192, 8, [(1, b'P', it[1])], [('I', b'P ' + text + b'\n')])
         c2.append(c)
         info[c] = (it, text)
 
